@@ -1,13 +1,19 @@
-def nontrivial(c):
-    evals = [l for l in c["lines"] if l.startswith("op eval ")]
+def _evals(c):
     tids = {}
-    for l in evals:
-        for p in l.split(" "):
-            if p.startswith("t="):
-                tids[p] = tids.get(p, 0) + 1
+    for l in c["lines"]:
+        if l.startswith("op eval "):
+            for p in l.split(" "):
+                if p.startswith("t="):
+                    tids[p] = tids.get(p, 0) + 1
+    return tids
+
+
+def nontrivial(c):
+    # a sampler that reads some field, one logical trace evaluated in at least two variants, and
+    # real outcomes observed
     has_cfg = any(l.startswith("op cond ") for l in c["lines"]) or any(
-        l.startswith("op key ") and "fields=-" not in l for l in c["lines"])
-    return has_cfg and any(n >= 2 for n in tids.values()) and any(l.startswith("obs rate=") for l in c["lines"])
+        l.startswith("op key ") and " fields=- " not in l for l in c["lines"])
+    return has_cfg and any(n >= 2 for n in _evals(c).values()) and any(l.startswith("obs rate=") for l in c["lines"])
 
 
 SPEC = dict(
@@ -15,11 +21,48 @@ SPEC = dict(
     component="encoding",
     props_module="Refinery.Props.C09",
     gen_module="Refinery.Gen.Encoding",
-    quick=dict(cases=400, len=60, shards=4),
-    thorough=dict(cases=24000, len=80, shards=16),
+    quick=dict(cases=600, len=60, shards=4),
+    thorough=dict(cases=32000, len=80, shards=16),
     nontrivial=nontrivial,
-    rule="TODO",
-    trusted_base=[],
-    manifest=dict(text="TODO", note="TODO", technique="TODO"),
-    assumptions=[],
+    rule="a case = one sampler configuration (1-3 rules of 0-3 conditions over all 15 operators and 5 datatypes, trace/span scope, "
+         "drop / SampleRate / deterministic or dynamic downstream sampler; a dynamic sampler with 0-6 key fields incl. root. fields, "
+         "UseTraceLength on/off) and 1-3 logical traces (1-4 spans, 0-4 fields drawn from a small palette of numbers around the type "
+         "boundaries 127/128, 255/256, 65535/65536, 2^24, 2^31, 10^6 +-1, negative numbers, dyadic fractions, strings, booleans, null), "
+         "each evaluated in 3-7 variants: the reference encoding, pure permutations, and re-encodings with a per-span choice of "
+         "ingestion path (JSON /1/events, JSON /1/batch, msgpack /1/events, msgpack /1/batch, OTLP protobuf through husky; each also "
+         "forwarded to a peer through the real batch re-encoding) and a per-field choice of wire type (JSON number in three spellings; "
+         "msgpack int / uint family in minimal or 64-bit width, float32 / float64, str / bin; OTLP int / double), by profile: safe "
+         "(only encodings the partial theorem covers), uint, f32, bin, json, mix. Every variant goes through the real handlers, "
+         "Payload, RulesBasedSampler and DynamicSampler. non-trivial = a sampler that reads some field, a logical trace with at least "
+         "two evaluated variants and observed outcomes; distinct by transcript hash",
+    trusted_base=["fmt %v, strconv, regexp, distinctValue.AddAsString's rendering and fastjson's number parser: their graphs on the "
+                  "arguments met are passed to the model as ext lines (taken from the running code)",
+                  "math/rand seeded through rand.Seed (GODEBUG randseednop=0 in the harness binary only); dynsampler-go's answer is taken as observed",
+                  "the harness's own request builders (JSON text, msgpack bytes incl. the uint family and forced 64-bit widths, OTLP protobuf "
+                  "via the official proto types) and its recording collector / transmission; husky's OTLP translation is run, not modelled",
+                  "Refinery.Model.Rules (C08) and Refinery.Model.TraceKey (C11), reused unchanged"],
+    manifest=dict(
+        text="Lean theorems over all sampler configurations, traces and external functions: order_invariant (any permutation of the spans, "
+             "root span fixed: same rules decision / rate / reason / key and same dynamic key / rate / decision below the distinct-value cap, "
+             "reusing C08's scope specifications and C11's perm_invariant); the decode table goOf per ingestion path; the full statement "
+             "EncodingInvariant is REFUTED for the code (proved negation, one kernel-evaluated witness per class: msgpack uint, float32, bin, "
+             "%v of integers >= 10^6 in rules and in root-field keys, fastjson's number parser on /1/batch, uint < 128 changing type when "
+             "forwarded); encoding_invariant_partial proves the statement for values that reach the samplers as int64/float64/string/bool/nil "
+             "with exactly parsed JSON batch literals and integers below 10^6 (via encoding_invariant_of_sim: values the four rule coercions "
+             "and the two key renderings cannot tell apart). The model is tied to the code by pushing every variant of every generated trace "
+             "through the real ingestion handlers and samplers and comparing each decoded Go value, decision, rate, reason and key with the "
+             "model; a monitor compares the real outcomes of variants carrying the same logical trace.",
+        note="Trusted: Lean kernel; the differential check (sampled); Go's formatting / parsing taken as graphs from the running code. "
+             "Known divergences recorded as findings (five signatures, one per wire-encoding class).",
+        technique="Lean 4 proof (permutation invariance through the all/any specifications; relational lifting of value indistinguishability "
+                  "through extraction, both rule scopes and the key builder; refutation by witness) + model/implementation correspondence check",
+    ),
+    assumptions=["a trace has at most one root span, so trace.RootSpan does not depend on arrival order (the collector keeps the last span that arrived without a parent id)",
+                 "numbers are finite, exactly representable in their wire type, of magnitude <= 2^53 for integers; negative zero, NaN and infinities are not generated",
+                 "jsoniter (JSON /1/events) yields the float64 nearest to the literal, which for the generated literals is its exact value (checked by the differential on every literal); fastjson's parser is an external function",
+                 "every field a sampler reads is one of the dataset's sampling key fields at the receiving node (production: the same sampler configuration on all nodes), hence memoized there before forwarding",
+                 "field names are not meta.* and not the configured trace-id / parent-id fields (excluded by the property); CheckNestedFields = false",
+                 "msgpack values are scalars (maps, arrays, ext, time are C20's subject); OTLP attributes are int / double / string / bool",
+                 "the downstream dynamic sampler's rate/keep is taken as observed (function of key and span count); its key is predicted by the model",
+                 "peer forwarding is exercised through the real batchedEvent.MarshalMsg / Payload.MarshalMsg and the peer router's /1/batch handler, not over HTTP"],
 )
